@@ -143,6 +143,28 @@ def run(ctx):
                                 tt, ft = ft, tt
                             sw = (bb, tt, ft)
                 ctx.check(sw is not None and sw[1] in dom.get(PU.bb, ()), P, "push-only-match", "a file is listed only when its extension is in the list", PU.where())
+                # ... and every file whose extension matched IS listed: from the match arm, each path back to the loop
+                # head passes the push. A skip condition in between hides an in-scope file from both modes.
+                if sw is not None:
+                    skips = []
+                    for sb in sorted(cfg.reach(f, [sw[1]], avoid=[NX.bb, PU.bb])):
+                        es2 = enum_switch(f, sb)
+                        t2 = f.term(sb)
+                        if t2["k"] != "switch":
+                            continue
+                        for tgt in set(f.succ[sb]):
+                            if PU.bb not in cfg.reach(f, [tgt], avoid=[NX.bb]) and cfg.path(f, tgt, [NX.bb], avoid=[PU.bb]) is not None:
+                                what = "?"
+                                if es2 is not None and not es2[0]["p"]:
+                                    d2 = single_def(f, es2[0]["l"])
+                                    if d2 and d2[1] == "call":
+                                        what = d2[2].name.split("::")[-1]
+                                skips.append((sb, what))
+                    for (sb, what) in skips:
+                        ctx.bad(P, "listing-total|skip-on|%s" % what,
+                                "a regular file with a configured extension is silently left out when `%s` gives no value (e.g. a path that is not valid UTF-8): neither mode ever sees it" % what, f.where(sb))
+                    if not skips:
+                        ctx.ok(P, "every file whose extension matched is listed", PU.where())
                 # the pushed path is the entry's path
                 cf = [c for c in f.calls_to(r"finder::CodeFile::new$")]
                 okp = False
